@@ -389,65 +389,6 @@ def register(R: Registry):
           notes="the number of child results is fixed per variant (0, 1, 2, 3); chain lengths and the numbers of already closed branches are symbolic",
           options=dict(OPTS))
 
-    # ================================================================ get_branches: the post-traversal step
-    # "each branch starts at the root or a furcation": the fold hands back the pending chain that ends at the root; if it
-    # has more than one node (the root is not a furcation: stems, unbranched chains) it must be closed as a branch that starts
-    # at the root; every branch closed during the traversal is kept exactly once.  The traversal is abstracted: it returns an
-    # ARBITRARY pair (run of closed branches, pending chain) — `Tree.traverse` is not a carrier of this contract.
-    def gb_setup(S):
-        t = sym_tree(S, "t", frozen=True)
-        cell = {}
-
-        def traverse_model(eng, args, kwargs):
-            eng.assumptions.add("abstraction: Tree.traverse(leave=collect_branches) returns an arbitrary (closed branches, pending chain) pair (the fold itself is checked by the bounded stand-in)")
-            if args or set(kwargs) != {"leave"}:
-                raise X.Unsupported("get_branches calls traverse in an unexpected form")
-            br = PList([X.SymSeg("closed")])
-            ch = S.plist("int", name="pending")
-            cell["ret"] = (br, ch, ch.cols[0], ch.n)
-            cell["calls"] = cell.get("calls", 0) + 1
-            return (br, ch)
-
-        t.fields["traverse"] = S.callback("Tree.traverse", traverse_model)
-        return dict(self=t, __ghost__=dict(cell=cell))
-
-    def gb_post(which):
-        def f(E, v, o):
-            cell = E.spec_extra["cell"]
-            res, t = v["result"], v["self"]
-            if cell.get("calls") != 1 or not isinstance(res, PList) or res.items is None:
-                return False
-            br, ch, c0, n0 = cell["ret"]
-            chain0 = PList()
-            chain0.items, chain0.cols, chain0.kinds, chain0.n, chain0.tup = None, [c0], ["int"], n0, False
-            closing = [x for x in res.items if not isinstance(x, X.SymSeg)]
-            runs = [x for x in res.items if isinstance(x, X.SymSeg)]
-            if which == "every-branch-of-the-traversal-kept-once":
-                return len(runs) == 1 and runs[0].tag == "closed"
-            if which == "pending-chain-of-more-than-one-node-closed-root-first":
-                long = zint(n0) > 1
-                if len(closing) == 0:
-                    return z3.Not(long)
-                if len(closing) != 1 or not is_branch_on(closing[0], t):
-                    return False
-                # chain0 = [.., child-of-root, root] (the root was appended last): the branch lists it in reverse, root first
-                b = closing[0]
-                idx, L, i = b.fields["idx"], zint(n0), z3.Int(fresh_name("i"))
-                return z3.And(long, idx.nz() == L, z3.ForAll([i], z3.Implies(z3.And(0 <= i, i < L), z3.Select(idx.arr, i) == z3.Select(c0, L - 1 - i))))
-            if which == "order":  # helper clause (from the code): [closing branch] + closed branches reversed, or the list as returned
-                if len(closing) == 1:
-                    return len(res.items) == 2 and res.items[0] is closing[0] and same_run(res.items[1], "closed", True)
-                return len(res.items) == 1 and same_run(res.items[0], "closed", False)
-
-        return f
-
-    R.add(f"{TREE}:Tree.get_branches", prop="C08",
-          setup=gb_setup,
-          ensures=[(w, gb_post(w)) for w in ("pending-chain-of-more-than-one-node-closed-root-first", "every-branch-of-the-traversal-kept-once")]
-          + [("result-order-closing-branch-first-then-closed-branches-reversed", gb_post("order"))],
-          notes="post-traversal step only; the traversal is replaced by an arbitrary result (assumption listed)",
-          options=dict(OPTS))
-
     # ================================================================ Tree.Node.branch on fixed small shapes
     # For a pass-through node or a tip x the result must be THE branch that contains the edge into x (for a one-child root:
     # the branch it starts): it contains x, starts at the root or a furcation, ends at a furcation or a tip, has only
@@ -971,11 +912,10 @@ def register_whole(R):
             return False
         IDX, LEN, n, C, lc = vw
         i, j = z3.Int(fresh_name("i")), z3.Int(fresh_name("j"))
-        return [("the-value-is-the-recorded-one",
-                 z3.And(n == hn9(x), lc == hlc9(x),
-                        z3.ForAll([i], sel(LEN, i) == hLEN9(x, i), patterns=[sel(LEN, i)]),
-                        z3.ForAll([i, j], sel(sel(IDX, i), j) == hB9(x, i, j), patterns=[sel(sel(IDX, i), j)]),
-                        z3.ForAll([j], sel(C, j) == hc9(x, j), patterns=[sel(C, j)])))] + gb_good(x, ctx)
+        return [("the-value-has-the-recorded-sizes", z3.And(n == hn9(x), lc == hlc9(x))),
+                ("the-closed-branches-have-the-recorded-lengths", z3.ForAll([i], sel(LEN, i) == hLEN9(x, i), patterns=[sel(LEN, i)])),
+                ("the-closed-branches-have-the-recorded-entries", z3.ForAll([i, j], sel(sel(IDX, i), j) == hB9(x, i, j), patterns=[sel(sel(IDX, i), j)])),
+                ("the-pending-chain-has-the-recorded-entries", z3.ForAll([j], sel(C, j) == hc9(x, j), patterns=[sel(C, j)]))] + gb_good(x, ctx)
 
     def gb_ghost_leave(E, v, x, ctx):
         """definitions of the history functions of THIS leave call (x is left exactly once)"""
@@ -989,6 +929,67 @@ def register_whole(R):
         E.assume(z3.ForAll([i, j], hB9(x, i, j) == sel(sel(IDX, i), j), patterns=[hB9(x, i, j)]))
         E.assume(z3.ForAll([j], hc9(x, j) == sel(C, j), patterns=[hc9(x, j)]))
         E.assumptions.add("ghost definitions per leave call of get_branches: hn9 / hLEN9 / hB9 / hlc9 / hc9 name the value (closed branches, pending chain) the callback returned for x")
+
+    # ---- where the edge into every left node is (ghost state, updated in bulk by ghost code after every leave call):
+    #   own[v]   the node whose (not yet consumed) value holds v;   inch[v]: v is in its pending chain at position pos[v],
+    #   otherwise v is entry bp[v] >= 1 of its closed branch number bi[v]  (so the edge (parent of v, v) is entries bp[v]-1, bp[v])
+    def gbw_setup(S):
+        t = wf_tree8(S)
+        n = nof(t)
+        mk = lambda nm, k: SArr.fresh(k, n, name=nm)
+        G = Obj(Ghost8, dict(own=mk("own", "int"), inch=mk("inch", "bool"), pos=mk("pos", "int"), bi=mk("bi", "int"), bp=mk("bp", "int")))
+        return dict(self=t, G9=G)
+
+    def g9(v):
+        f = v["G9"].fields
+        return f["own"].arr, f["inch"].arr, f["pos"].arr, f["bi"].arr, f["bp"].arr
+
+    def gb_J(E, v, ENT, LEFT, ctx):
+        own, inch, pos, bi, bp = g9(v)
+        P, R_, root = ctx.P, ctx.R, ctx.root
+        left = lambda a: z3.simplify(sel(LEFT, a))
+        pending = lambda o: z3.And(left(o), z3.Or(o == root, z3.Not(left(sel(P, o)))))
+        u, o, i, j = (z3.Int(fresh_name(a)) for a in ("u", "o", "i", "j"))
+        ou = sel(own, u)
+        cu, bu = hc9(o, j), hB9(o, i, j)
+        return [
+            ("the-holder-of-a-left-node-is-a-left-node-whose-parent-is-not-left",
+             z3.ForAll([u], z3.Implies(z3.And(R_(u), left(u)), z3.And(R_(ou), pending(ou))), patterns=[sel(own, u)])),
+            ("a-left-node-is-where-its-record-says",
+             z3.ForAll([u], z3.Implies(z3.And(R_(u), left(u)),
+                                       z3.If(sel(inch, u), z3.And(0 <= sel(pos, u), sel(pos, u) < hlc9(ou), hc9(ou, sel(pos, u)) == u),
+                                             z3.And(0 <= sel(bi, u), sel(bi, u) < hn9(ou), 1 <= sel(bp, u), sel(bp, u) < hLEN9(ou, sel(bi, u)), hB9(ou, sel(bi, u), sel(bp, u)) == u))),
+                       patterns=[sel(own, u), sel(inch, u)])),
+            ("every-entry-of-a-pending-chain-is-recorded-there",
+             z3.ForAll([o, j], z3.Implies(z3.And(R_(o), pending(o), 0 <= j, j < hlc9(o)), z3.And(R_(cu), left(cu), sel(own, cu) == o, sel(inch, cu), sel(pos, cu) == j)), patterns=[hc9(o, j)])),
+            ("every-entry-but-the-first-of-a-closed-branch-is-recorded-there",
+             z3.ForAll([o, i, j], z3.Implies(z3.And(R_(o), pending(o), 0 <= i, i < hn9(o), 1 <= j, j < hLEN9(o, i)),
+                                             z3.And(R_(bu), left(bu), sel(own, bu) == o, z3.Not(sel(inch, bu)), sel(bi, bu) == i, sel(bp, bu) == j)), patterns=[hB9(o, i, j)]))]
+
+    def gb_ghost_update(E, v, x, ctx):
+        """bulk update of the records after the leave call of x: everything the children held is now held by x"""
+        call = E.ghost["traverse-last-call"]
+        LEFT, pre = call["LEFT"], call["args"]
+        if not isinstance(pre, X.PairList):
+            raise X.Unsupported("get_branches: child results are not the rule's list")
+        G = v["G9"].fields
+        own, inch, pos, bi, bp = g9(v)
+        K, loff = ctx.nkids(x), pre.loff
+        moved = lambda u: z3.And(ctx.R(u), sel(LEFT, u), ctx.R(sel(own, u)), sel(ctx.P, sel(own, u)) == x)
+        kk = lambda u: ctx.rank(sel(own, u))
+        kd = lambda u: sel(own, u)
+        one = K == 1
+        pw = lambda nm, so, body: X.pointwise(E, so, nm, body)
+        AIB = z3.ArraySort(I_, B_)
+        G["own"].arr = pw("own", X.AII, lambda u: z3.If(u == x, x, z3.If(moved(u), x, sel(own, u))))
+        G["inch"].arr = pw("inch", AIB, lambda u: z3.If(u == x, z3.BoolVal(True), z3.If(moved(u), z3.And(one, sel(inch, u)), sel(inch, u))))
+        G["pos"].arr = pw("pos", X.AII, lambda u: z3.If(u == x, hlc9(x) - 1, sel(pos, u)))
+        G["bi"].arr = pw("bi", X.AII, lambda u: z3.If(z3.And(moved(u), z3.Not(one)), z3.If(sel(inch, u), loff(kk(u)), loff(kk(u)) + hn9(kd(u)) - sel(bi, u)), sel(bi, u)))
+        G["bp"].arr = pw("bp", X.AII, lambda u: z3.If(z3.And(moved(u), z3.Not(one), sel(inch, u)), hlc9(kd(u)) - sel(pos, u), sel(bp, u)))
+
+    def gb_ghost_leave2(E, v, x, ctx):
+        gb_ghost_leave(E, v, x, ctx)
+        gb_ghost_update(E, v, x, ctx)
 
     # ---- the loop of the callback: after k children,  branches = for each child k' < k: [node + its chain reversed] + its closed branches reversed
     def cb_loop_vocab(E, v):
@@ -1039,6 +1040,17 @@ def register_whole(R):
         P, n = col(t, "pid").arr, nof(t)
         return z3.Exists([r], z3.And(0 <= r, r < n, sel(P, r) == x, z3.ForAll([r2], z3.Implies(z3.And(0 <= r2, r2 < n, sel(P, r2) == x), r2 == r))))
 
+    def decided(E, cond):
+        """the condition as a Python bool when the (quantifier-free part of the) path condition decides it, else the condition itself"""
+        if not E.feasible(z3.Not(cond)):
+            return z3.BoolVal(True)
+        if not E.feasible(cond):
+            return z3.BoolVal(False)
+        return cond
+
+    def ite(c, a, b):
+        return a if z3.is_true(c) else (b if z3.is_false(c) else z3.If(c, a, b))
+
     def gbw_post(which):
         def f(E, v, o):
             t = o["self"]
@@ -1048,6 +1060,14 @@ def register_whole(R):
             E.ghost["gb-result"] = res
             if which == "branches-attached-to-this-tree":
                 return res.fixed.get("attach") is v["self"] and res.fixed.get("names") is t.fields["names"]
+            out = gbw_post_formula(E, v, o, t, res, which)
+            E.ghost[("gb-post", which)] = out  # the very formula: a hint may prove it first in a reduced context
+            return out
+
+        return f
+
+    def gbw_post_formula(E, v, o, t, res, which):
+        if True:
             IDX, LEN, m = res.cols[0], res.cols[1], zint(res.n)
             P, n = col(t, "pid").arr, nof(t)
             i, j = z3.Int(fresh_name("i")), z3.Int(fresh_name("j"))
@@ -1063,9 +1083,26 @@ def register_whole(R):
                 return z3.ForAll([i], z3.Implies(ini, z3.Or(two_rows(t, e), no_child(t, e))))
             if which == "interior-nodes-are-pass-through":
                 return z3.ForAll([i, j], z3.Implies(z3.And(ini, 1 <= j, j < sel(LEN, i) - 1), one_child(t, at(i, j))))
+            lc, hn = hlc9(0), hn9(0)
+            closing = decided(E, lc > 1)  # the pending chain of the root has an edge: it is closed as a branch that starts at the root
+            if which == "pending-chain-of-more-than-one-node-closed-root-first":
+                return ite(closing, z3.And(lc > 1, m == hn + 1, sel(LEN, 0) == lc, z3.ForAll([j], z3.Implies(z3.And(0 <= j, j < lc), at(0, j) == hc9(0, lc - 1 - j)))), z3.And(lc <= 1, m == hn))
+            if which == "every-branch-of-the-traversal-kept-once":
+                ri = ite(closing, hn - i, i)
+                return z3.And(z3.ForAll([i], z3.Implies(z3.And(0 <= i, i < hn), z3.And(0 <= ri, ri < m, sel(LEN, ri) == hLEN9(0, i)))),
+                              z3.ForAll([i, j], z3.Implies(z3.And(0 <= i, i < hn, 0 <= j, j < hLEN9(0, i)), at(ri, j) == hB9(0, i, j))))
+            own, inch, pos, bi, bp = g9(v)
+            u, i2, j2 = z3.Int(fresh_name("u")), z3.Int(fresh_name("i2")), z3.Int(fresh_name("j2"))
+            fi = ite(closing, z3.If(sel(inch, u), 0, hn - sel(bi, u)), sel(bi, u))
+            fj = ite(closing, z3.If(sel(inch, u), lc - 1 - sel(pos, u), sel(bp, u)), sel(bp, u))
+            edge = z3.And(0 < u, u < n)  # the edge (parent of u, u) of a node u other than the root
+            if which == "every-edge-lies-in-a-branch-at-its-recorded-place":
+                return z3.ForAll([u], z3.Implies(edge, z3.And(0 <= fi, fi < m, 1 <= fj, fj < sel(LEN, fi), at(fi, fj) == u, at(fi, fj - 1) == sel(P, u))))
+            if which == "every-edge-lies-in-some-branch":
+                return z3.ForAll([u], z3.Implies(edge, z3.Exists([i, j], z3.And(ini, 1 <= j, j < sel(LEN, i), at(i, j) == u, at(i, j - 1) == sel(P, u)))))
+            if which == "no-edge-lies-in-two-branches-or-twice-in-one":
+                return z3.ForAll([i, j, i2, j2], z3.Implies(z3.And(ini, 0 <= i2, i2 < m, 1 <= j, j < sel(LEN, i), 1 <= j2, j2 < sel(LEN, i2), at(i, j) == at(i2, j2)), z3.And(i == i2, j == j2)))
             raise KeyError(which)
-
-        return f
 
     def gbw_hint(E, vars):
         """child counts in terms of rows (from the definition of kid / rank)"""
@@ -1084,14 +1121,97 @@ def register_whole(R):
         st("the-only-child-is-the-only-row-naming-the-node-as-parent",
            z3.ForAll([x, a], z3.Implies(z3.And(ctx.R(x), ctx.nkids(x) == 1, 0 <= a, a < n, sel(P, a) == x), z3.And(a == k0, ctx.R(k0), sel(P, k0) == x))))
         st("a-node-with-one-child-is-a-pass-through-node", z3.ForAll([x], z3.Implies(z3.And(ctx.R(x), ctx.nkids(x) == 1), one_child(t, x)), patterns=[ctx.nkids(x)]))
+        # the shape of every branch of the result in terms of child counts
+        res = E.ghost["gb-result"]
+        IDX, LEN, m = res.cols[0], res.cols[1], zint(res.n)
+        i, j = z3.Int(fresh_name("i")), z3.Int(fresh_name("j"))
+        at = lambda a_, b_: sel(sel(IDX, a_), b_)
+        ini = z3.And(0 <= i, i < m)
+        voc2 = [ctx.nkids, ctx.P, ctx.n, IDX, LEN, m, hB9, hn9, hLEN9, hc9, hlc9]
+        st2 = lambda nm, f_: X.prove_in_vocabulary(E, f"Tree.get_branches/step/{nm}", f_, voc2)
+        st2("every-branch-starts-at-the-root-or-at-a-node-with-two-or-more-children", z3.ForAll([i], z3.Implies(ini, z3.And(ctx.R(at(i, 0)), z3.Or(at(i, 0) == 0, ctx.nkids(at(i, 0)) >= 2))), patterns=[sel(LEN, i)]))
+        st2("every-branch-ends-at-a-node-that-has-not-exactly-one-child", z3.ForAll([i], z3.Implies(ini, z3.And(ctx.R(at(i, sel(LEN, i) - 1)), ctx.nkids(at(i, sel(LEN, i) - 1)) != 1)), patterns=[sel(LEN, i)]))
+        st2("every-interior-node-of-a-branch-has-exactly-one-child", z3.ForAll([i, j], z3.Implies(z3.And(ini, 1 <= j, j < sel(LEN, i) - 1), z3.And(ctx.R(at(i, j)), ctx.nkids(at(i, j)) == 1)), patterns=[at(i, j)]))
 
-    GBW = ["branches-attached-to-this-tree", "every-branch-has-an-edge-and-consecutive-entries-are-parent-and-child", "every-branch-starts-at-the-root-or-a-furcation",
-           "every-branch-ends-at-a-furcation-or-a-tip", "interior-nodes-are-pass-through"]
-    R.add(f"{TREE}:Tree.get_branches", prop="C08", setup=lambda S: dict(self=wf_tree8(S)),
+    def gbw_hint_mapping(E, vars):
+        """which branch of the traversal a branch of the result is (the result is the traversal's list, or that list with the closing branch
+        appended, reversed)"""
+        res = E.ghost["gb-result"]
+        IDX, LEN, m = res.cols[0], res.cols[1], zint(res.n)
+        lc, hn = hlc9(0), hn9(0)
+        closing = decided(E, lc > 1)
+        i, j = z3.Int(fresh_name("i")), z3.Int(fresh_name("j"))
+        at = lambda a, b: sel(sel(IDX, a), b)
+        ri = ite(closing, hn - i, i)
+        other = z3.And(0 <= i, i < m, z3.Not(z3.And(closing, i == 0)))
+        E.prove("Tree.get_branches/step/a-branch-other-than-the-closing-one-is-a-branch-of-the-traversal",
+                z3.And(z3.ForAll([i], z3.Implies(other, z3.And(0 <= ri, ri < hn, sel(LEN, i) == hLEN9(0, ri))), patterns=[sel(LEN, i)]),
+                       z3.ForAll([i, j], z3.Implies(z3.And(other, 0 <= j, j < sel(LEN, i)), at(i, j) == hB9(0, ri, j)), patterns=[at(i, j)])), "annotation")
+
+    def gbw_hint_edges(which):
+        def f(E, vars):
+            ctx = E.ghost["last-traverse-ctx"]
+            t, res = vars["self"], E.ghost["gb-result"]
+            IDX, LEN, m = res.cols[0], res.cols[1], zint(res.n)
+            P, n = col(t, "pid").arr, nof(t)
+            own, inch, pos, bi, bp = g9(vars)
+            lc, hn = hlc9(0), hn9(0)
+            closing = decided(E, lc > 1)
+            u, i, j = z3.Int(fresh_name("u")), z3.Int(fresh_name("i")), z3.Int(fresh_name("j"))
+            at = lambda a, b: sel(sel(IDX, a), b)
+            voc = [own, inch, pos, bi, bp, hc9, hB9, hn9, hlc9, hLEN9, E.ghost["last-traverse-Sub"], ctx.P, ctx.n, ctx.nkids, IDX, LEN, m]
+            st = lambda nm, f_: X.prove_in_vocabulary(E, f"Tree.get_branches/step/{nm}", f_, voc)
+            edge = z3.And(0 < u, u < n)
+            if which == "cover":
+                st("at-the-end-the-root-holds-every-node", z3.ForAll([u], z3.Implies(ctx.R(u), sel(own, u) == 0), patterns=[sel(own, u)]))
+                st("a-node-other-than-the-root-in-the-pending-chain-of-the-root-has-its-parent-next-in-it",
+                   z3.ForAll([u], z3.Implies(z3.And(edge, sel(inch, u)), z3.And(lc > 1, 0 <= sel(pos, u), sel(pos, u) <= lc - 2, hc9(0, sel(pos, u)) == u, hc9(0, sel(pos, u) + 1) == sel(P, u))), patterns=[sel(inch, u), sel(pos, u)]))
+                st("a-node-in-a-closed-branch-has-its-parent-before-it",
+                   z3.ForAll([u], z3.Implies(z3.And(edge, z3.Not(sel(inch, u))), z3.And(0 <= sel(bi, u), sel(bi, u) < hn, 1 <= sel(bp, u), sel(bp, u) < hLEN9(0, sel(bi, u)),
+                                                                                       hB9(0, sel(bi, u), sel(bp, u)) == u, hB9(0, sel(bi, u), sel(bp, u) - 1) == sel(P, u))), patterns=[sel(inch, u), sel(bi, u)]))
+                fi = ite(closing, z3.If(sel(inch, u), 0, hn - sel(bi, u)), sel(bi, u))
+                fj = ite(closing, z3.If(sel(inch, u), lc - 1 - sel(pos, u), sel(bp, u)), sel(bp, u))
+                place = z3.And(0 <= fi, fi < m, 1 <= fj, fj < sel(LEN, fi), at(fi, fj) == u, at(fi, fj - 1) == sel(P, u))
+                st("the-edge-into-a-node-of-the-pending-chain-of-the-root-lies-in-the-branch-that-closes-it", z3.ForAll([u], z3.Implies(z3.And(edge, sel(inch, u)), place), patterns=[sel(inch, u), sel(bi, u), sel(pos, u)]))
+                st("the-edge-into-a-node-of-a-closed-branch-lies-in-that-branch", z3.ForAll([u], z3.Implies(z3.And(edge, z3.Not(sel(inch, u))), place), patterns=[sel(inch, u), sel(bi, u), sel(pos, u)]))
+                st("the-edge-into-every-node-but-the-root-lies-in-a-branch", z3.ForAll([u], z3.Implies(edge, place), patterns=[sel(inch, u), sel(bi, u), sel(pos, u)]))
+            else:
+                w = at(i, j)
+                rng = z3.And(0 <= i, i < m, 1 <= j, j < sel(LEN, i))
+                st("an-entry-of-the-branch-that-closes-the-chain-of-the-root-is-recorded-in-that-chain",
+                   z3.ForAll([i, j], z3.Implies(z3.And(rng, closing, i == 0), z3.And(sel(inch, w), sel(pos, w) == lc - 1 - j)), patterns=[at(i, j)]))
+                st("an-entry-of-another-branch-is-recorded-in-it",
+                   z3.ForAll([i, j], z3.Implies(z3.And(rng, z3.Not(z3.And(closing, i == 0))), z3.And(z3.Not(sel(inch, w)), sel(bi, w) == ite(closing, hn - i, i), sel(bp, w) == j)), patterns=[at(i, j)]))
+
+        return f
+
+    def gbw_then_post(which, first=None, kind="shape"):
+        """hint: run the steps of `first`, then prove THE formula of postcondition `which` in a reduced context (it is then a hypothesis of the
+        postcondition's own obligation, which is discharged at once)"""
+        def f(E, vars):
+            if first is not None:
+                first(E, vars)
+            ctx, t, res = E.ghost["last-traverse-ctx"], vars["self"], E.ghost["gb-result"]
+            voc = [ctx.P, ctx.n, res.cols[0], res.cols[1], zint(res.n)] + ([ctx.nkids, col(t, "id").arr] if kind == "shape" else list(g9(vars)) + [hn9, hlc9])
+            X.prove_in_vocabulary(E, f"Tree.get_branches/step/{which}-from-the-steps", E.ghost[("gb-post", which)], voc)
+
+        return f
+
+    GBW = ["branches-attached-to-this-tree", "pending-chain-of-more-than-one-node-closed-root-first", "every-branch-of-the-traversal-kept-once",
+           "every-branch-has-an-edge-and-consecutive-entries-are-parent-and-child", "every-branch-starts-at-the-root-or-a-furcation",
+           "every-branch-ends-at-a-furcation-or-a-tip", "interior-nodes-are-pass-through",
+           "every-edge-lies-in-a-branch-at-its-recorded-place", "every-edge-lies-in-some-branch", "no-edge-lies-in-two-branches-or-twice-in-one"]
+    R.add(f"{TREE}:Tree.get_branches", prop="C08", setup=gbw_setup,
           ensures=[(w, gbw_post(w)) for w in GBW],
           inlined_loops={f"{TREE}:Tree.get_branches.<locals>.collect_branches": {0: CB_LOOP}},
-          options=dict(OPTS, traverse_rule=Rule(lambda E, v, ENT, LEFT, ctx: True, Ql=gb_Ql, leave_kind=gb_leave_kind, leave_args=gb_leave_args, ghost_leave=gb_ghost_leave),
-                       hints={"post/every-branch-starts-at-the-root-or-a-furcation": gbw_hint}),
+          options=dict(OPTS, traverse_rule=Rule(gb_J, Ql=gb_Ql, modifies=["G9"], leave_kind=gb_leave_kind, leave_args=gb_leave_args, ghost_leave=gb_ghost_leave2),
+                       hints={"post/every-branch-has-an-edge-and-consecutive-entries-are-parent-and-child": gbw_hint_mapping,
+                              "post/every-branch-starts-at-the-root-or-a-furcation": gbw_then_post("every-branch-starts-at-the-root-or-a-furcation", gbw_hint),
+                              "post/every-branch-ends-at-a-furcation-or-a-tip": gbw_then_post("every-branch-ends-at-a-furcation-or-a-tip"),
+                              "post/interior-nodes-are-pass-through": gbw_then_post("interior-nodes-are-pass-through"),
+                              "post/every-edge-lies-in-a-branch-at-its-recorded-place": gbw_hint_edges("cover"),
+                              "post/every-edge-lies-in-some-branch": gbw_then_post("every-edge-lies-in-some-branch", kind="edges"),
+                              "post/no-edge-lies-in-two-branches-or-twice-in-one": gbw_then_post("no-edge-lies-in-two-branches-or-twice-in-one", gbw_hint_edges("unique"), kind="edges")}),
           notes="whole function, trees of any size (traverse client rule with (list of branches, chain) leave values; loop of the callback cut at an invariant); the input tree is frozen")
 
 
